@@ -78,10 +78,11 @@ func compositeGlyph(o int, comps []int) *glyf.Glyph {
 func cffGlyph(g Glyph) *cff.Glyph {
 	res := cff.NewGlyph(nameOf(g.N), float64(g.W))
 	if g.O != 0 {
-		x := float64(g.O)
-		res.MoveTo(x, 0)
-		res.LineTo(x+10, 0)
-		res.LineTo(x+10, 5)
+		// the outline id sits in the first point (Type 2 operands are 16-bit)
+		x, y := float64(g.O%30000), float64(g.O/30000)
+		res.MoveTo(x, y)
+		res.LineTo(x+10, y)
+		res.LineTo(x+10, y+5)
 	}
 	return res
 }
@@ -281,8 +282,8 @@ func cffOutlineID(g *cff.Glyph) int {
 	if len(g.Cmds) == 0 {
 		return 0
 	}
-	if len(g.Cmds[0].Args) >= 1 {
-		return int(g.Cmds[0].Args[0])
+	if len(g.Cmds[0].Args) >= 2 {
+		return int(g.Cmds[0].Args[0]) + 30000*int(g.Cmds[0].Args[1])
 	}
 	return -1
 }
